@@ -14,9 +14,10 @@ def r(*a, **kw):
 def _r(prop, only=None, tier='quick', trace=False, maxjobs=3, quiet=False, stop=True):
     tot = [0]
     os.system('clear')
-    import mirsym.mir, mirsym.engine, mirsym.models, mirsym.models2, mirsym.models3, mirsym.models4, mirsym.models5, mirsym.harness
-    for m in (mirsym.engine, mirsym.models, mirsym.models2, mirsym.models3, mirsym.models4, mirsym.models5, mirsym.harness):
+    import mirsym.mir, mirsym.engine, mirsym.models, mirsym.models2, mirsym.models3, mirsym.models4, mirsym.models5, mirsym.models6, mirsym.harness
+    for m in (mirsym.engine, mirsym.models, mirsym.models2, mirsym.models3, mirsym.models4, mirsym.models5, mirsym.models6, mirsym.harness):
         importlib.reload(m)
+    import props.graphstub; importlib.reload(props.graphstub)
     mod = importlib.import_module('props.' + prop.lower()); importlib.reload(mod)
     ix = ix_for(mod.CRATES)
     for d in ('_res_cache', '_pcache', '_enum_tables', '_gen_cache'): ix.__dict__.pop(d, None)
